@@ -3,29 +3,29 @@
 # under /verif/seeded/<name>/ (patch.diff, demo.py, NOTES.md, meta.json with what was run).
 set -u
 prop=$1; name=${2:-$prop-a}; shift; shift 2>/dev/null
-wt=/tmp/wt/$prop
+wt=${WT:-/tmp/wt}/$prop
 out=/verif/seeded/$name
 cd $wt || exit 2
-git diff -- skchange > /tmp/wt/$name.patch
-[ -s /tmp/wt/$name.patch ] || { echo "no tracked change in $wt"; exit 2; }
+git diff -- skchange > ${WT:-/tmp/wt}/$name.patch
+[ -s ${WT:-/tmp/wt}/$name.patch ] || { echo "no tracked change in $wt"; exit 2; }
 [ -f demo.py ] || { echo "no demo.py"; exit 2; }
-PYTHONPATH=$wt timeout 600 /venv/bin/python demo.py > /tmp/wt/$name.demo_with.txt 2>&1; with=$?
-git apply -R /tmp/wt/$name.patch   # (no git stash: the stash stack is shared between worktrees)
-PYTHONPATH=$wt timeout 600 /venv/bin/python demo.py > /tmp/wt/$name.demo_without.txt 2>&1; without=$?
-git apply /tmp/wt/$name.patch
+PYTHONPATH=$wt timeout 600 /venv/bin/python demo.py > ${WT:-/tmp/wt}/$name.demo_with.txt 2>&1; with=$?
+git apply -R ${WT:-/tmp/wt}/$name.patch   # (no git stash: the stash stack is shared between worktrees)
+PYTHONPATH=$wt timeout 600 /venv/bin/python demo.py > ${WT:-/tmp/wt}/$name.demo_without.txt 2>&1; without=$?
+git apply ${WT:-/tmp/wt}/$name.patch
 base=$(/verif/tools/baseline.py $wt | head -1)
 echo "demo with change: exit=$with ; without: exit=$without ; $base"
 results=""
 cd /verif
 for c in $prop "$@"; do
-  VERIF_EVIDENCE_DIR=/tmp/wt/ev VERIF_REPO_ROOT=$wt ./check $c > /tmp/wt/$name.$c.out 2>&1; rc=$?
-  line="$c exit=$rc violations=$(grep -c '^VIOLATION' /tmp/wt/$name.$c.out) first=$(grep -m1 '^VIOLATION' /tmp/wt/$name.$c.out | sed 's/.*# //' | cut -c1-260)"
+  VERIF_EVIDENCE_DIR=${WT:-/tmp/wt}/ev VERIF_REPO_ROOT=$wt ./check $c > ${WT:-/tmp/wt}/$name.$c.out 2>&1; rc=$?
+  line="$c exit=$rc violations=$(grep -c '^VIOLATION' ${WT:-/tmp/wt}/$name.$c.out) first=$(grep -m1 '^VIOLATION' ${WT:-/tmp/wt}/$name.$c.out | sed 's/.*# //' | cut -c1-260)"
   echo "  $line"
   results="$results$line\n"
 done
 
 mkdir -p $out
-cp /tmp/wt/$name.patch $out/patch.diff; cp $wt/demo.py $out/demo.py; for f in MUTATION_NOTES.md NOTES.md; do [ -f $wt/$f ] && { cp $wt/$f $out/NOTES.md; break; }; done
+cp ${WT:-/tmp/wt}/$name.patch $out/patch.diff; cp $wt/demo.py $out/demo.py; for f in MUTATION_NOTES.md NOTES.md; do [ -f $wt/$f ] && { cp $wt/$f $out/NOTES.md; break; }; done
 python3 - "$prop" "$name" "$with" "$without" "$base" "$results" <<'PY'
 import json,sys
 prop,name,w,wo,base,res=sys.argv[1:7]
